@@ -6,14 +6,14 @@ def run(chk):
     thorough = chk.tier == "thorough"
     fn, n = cc.strings(chk, chk.tier)
     cc.replay(chk, fn)   # includes panic, allocation envelope and time budget on the structured strings (header fields at their extremes)
-    lines = cc.fuzz(chk, fn, 120 if thorough else 12)
+    lines = cc.fuzz(chk, fn, 300 if thorough else 30)
     chk.exhaustive = False
     chk.explanation = (
         "Structured strings of C07 (every header field at its extremes: all-ones length prefixes and counts, unknown tags, truncations at every item boundary) plus "
         "%d seeded random mutations per accepted string (bit flips, boundary byte values, deletions, insertions, truncations, extensions, 0xffffffff splices, "
         "swaps). Each decode runs under catch_unwind with overflow checks on, a per-thread counting allocator and a clock; every event is judged by TLC against the "
         "total decoder Codec!Dec: same verdict, no panic, accepted strings canonical with exact advertised length, allocation <= 64*(|input| + size implied by the "
-        "decoding parameter) + 16 KiB, time <= 200 ms." % (120 if thorough else 12))
+        "decoding parameter) + 16 KiB, time <= 200 ms." % (300 if thorough else 30))
     chk.assumptions = ["termination/allocation are observed on the explored inputs, not proved", "zero-sized item types in decode_*_items are outside the message types of the library (see DESIGN.md D7)"]
 
 
